@@ -69,7 +69,7 @@ def main():
     env = dict(os.environ, CARGO_NET_OFFLINE="true", CARGO_TARGET_DIR=os.path.join(root, "target"))
     # dependencies (syn, quote, the macro itself) once
     names = sorted(bins)
-    first = subprocess.run(["cargo", "build", "--offline", "-q", "--bin", names[0]], cwd=root, capture_output=True, text=True, env=env, timeout=1200)
+    first = C.run_group(["cargo", "build", "--offline", "-q", "--bin", names[0]], cwd=root, env=env, timeout=1200)
     results = []
     import concurrent.futures as cf
 
@@ -77,10 +77,9 @@ def main():
         t1 = time.time()
         try:
             wd = c12_defs.KNOWN_SLOW[name][1] if name in c12_defs.KNOWN_SLOW else WATCHDOG
-            p = subprocess.run(["cargo", "rustc", "--offline", "-q", "--bin", name, "--", "-Awarnings"], cwd=root, capture_output=True, text=True, env=env, timeout=wd)
+            p = C.run_group(["cargo", "rustc", "--offline", "-q", "--bin", name, "--", "-Awarnings"], cwd=root, env=env, timeout=wd)
             return name, p.returncode, p.stderr[-3000:], time.time() - t1
         except subprocess.TimeoutExpired:
-            subprocess.run(["pkill", "-f", "crate-name %s " % name])
             return name, 124, "expansion/compilation did not finish within %d s" % wd, time.time() - t1
 
     # cargo serialises on the build directory lock; the per-binary time is measured from the moment rustc could start, so run sequentially
@@ -93,7 +92,7 @@ def main():
     def expand_once(name):
         e = dict(env, RUSTC_BOOTSTRAP="1")
         try:
-            p = subprocess.run(["cargo", "rustc", "--offline", "-q", "--bin", name, "--", "-Awarnings", "-Zunpretty=expanded"], cwd=root, capture_output=True, text=True, env=e, timeout=WATCHDOG)
+            p = C.run_group(["cargo", "rustc", "--offline", "-q", "--bin", name, "--", "-Awarnings", "-Zunpretty=expanded"], cwd=root, env=e, timeout=WATCHDOG)
             return p.stdout if p.returncode == 0 else None
         except subprocess.TimeoutExpired:
             return None
